@@ -103,7 +103,20 @@ fn check_value(cx: &Cx, ti: usize, x: u64) -> Vec<(String, String)> {
         },
         Fmt::Absent => {}
     }
+    // formatter flags (width, alignment, alternate) must not change which name / number is printed
+    if r.display.0 == Fmt::Named {
+        if let Ok(plain) = guarded(|| (r.display.1)(x)) {
+            if let Some(f) = r.display_flags {
+                for (flag, t) in f(x) {
+                    if t.trim() != plain.trim() {
+                        out.push((format!("Display {}", flag), format!("Display of {}({}) with {} prints {:?}, plain Display prints {:?}", ty, x, flag, t, plain)));
+                    }
+                }
+            }
+        }
+    }
     // conversions that exist for this type
+    let mut late: Vec<(String, String)> = Vec::new();
     let mut conv = |name: &str, got: u64| {
         if got != x {
             out.push((name.to_string(), format!("{} of {}({}) gives {}", name, ty, x, got)));
@@ -122,6 +135,13 @@ fn check_value(cx: &Cx, ti: usize, x: u64) -> Vec<(String, String)> {
         }
         "TlsVersion" => {
             let v = TlsVersion(x as u16);
+            // formatter flags must not change the number that is printed
+            for (flag, h) in [("{:#x}", format!("{:#x}", v)), ("{:06x}", format!("{:06x}", v)), ("{:#06x}", format!("{:#06x}", v)), ("{:>8x}", format!("{:>8x}", v)), ("{:<8x}", format!("{:<8x}", v))] {
+                let t = h.trim().trim_start_matches("0x");
+                if u64::from_str_radix(t, 16).ok() != Some(x) {
+                    late.push((format!("LowerHex {}", flag), format!("{} of TlsVersion({:#06x}) prints {:?}", flag, x, h)));
+                }
+            }
             conv("u16::from", u16::from(v) as u64);
             conv("to_be_bytes", u16::from_be_bytes(v.to_be_bytes()) as u64);
             let h = format!("{:x}", v);
@@ -174,6 +194,7 @@ fn check_value(cx: &Cx, ti: usize, x: u64) -> Vec<(String, String)> {
         }
         _ => {}
     }
+    out.extend(late);
     out
 }
 
@@ -185,6 +206,17 @@ fn check_cipher_id(cx: &Cx, x: u16) -> Vec<(String, String)> {
     }
     if format!("{}", c) != format!("{}", x) {
         out.push(("Display".into(), format!("Display of TlsCipherSuiteID({}) is {:?}", x, format!("{}", c))));
+    }
+    for (flag, h) in [("{:#x}", format!("{:#x}", c)), ("{:06x}", format!("{:06x}", c)), ("{:#06x}", format!("{:#06x}", c)), ("{:>8x}", format!("{:>8x}", c)), ("{:<8x}", format!("{:<8x}", c))] {
+        let t = h.trim().trim_start_matches("0x");
+        if u16::from_str_radix(t, 16).ok() != Some(x) {
+            out.push((format!("LowerHex {}", flag), format!("{} of TlsCipherSuiteID({:#06x}) prints {:?}", flag, x, h)));
+        }
+    }
+    for (flag, d) in [("{:>8}", format!("{:>8}", c)), ("{:08}", format!("{:08}", c)), ("{:<8}", format!("{:<8}", c)), ("{:+}", format!("{:+}", c))] {
+        if d.trim().trim_start_matches('+').parse::<u32>().ok() != Some(x as u32) {
+            out.push((format!("Display {}", flag), format!("{} of TlsCipherSuiteID({}) prints {:?}", flag, x, d)));
+        }
     }
     if format!("{:x}", c) != format!("{:x}", x) {
         out.push(("LowerHex".into(), format!("LowerHex of TlsCipherSuiteID({}) is {:?}", x, format!("{:x}", c))));
